@@ -45,3 +45,18 @@ claim("C16",
       "exhaustive enumeration of value products and byte mutations through the crates' own codecs + explicit-state DFS of the ack range list",
       "decode(encode(v)) = v over the product of field classes for all five renet packet kinds, all seven netcode packet kinds x 18 sequence values x keys x payload lengths, challenge tokens, connect tokens with every 1..32 address shape through write/read and seal/open; every single-byte substitution / truncation of exemplar encodings and hand-assembled token slot patterns must re-encode to the same value; ack packet = reference set in every state of the ack world",
       TB, "DESIGN.md §5 C16")
+
+claim("C06",
+      "exhaustive sweep of a hostile packet alphabet and of slice-family words over prepared protocol states (real endpoints)",
+      "every single packet of a hand-assembled boundary-value alphabet, and every pair / triple over the slice family {index} x {count} x {payload length} of one message id on all three channel kinds, injected into 7 prepared states of a client endpoint and of a server-side connection; oracle: no unwind, connected-or-disconnected-with-reason, receive accounting within budget, follow-up API calls return, the server's other connection completes a reliable exchange",
+      TB, "DESIGN.md §5 C06")
+
+claim("C11",
+      "explicit-state DFS over a multi-client API alphabet with differential isolation probes on clones in every state",
+      "all action sequences up to depth D for 2 and 3 clients (connect, disconnect, remove, send, broadcast, broadcast_except, client send, tick, link-down tick, hostile packet); in every state: uniquely labelled messages are only obtained by their recipients / under their sender's id, on their channel, once; fault-free probe delivers every reliable message to every still-healthy recipient; probes with one client's link down or one ordered stream stalled leave every other observer's (label, tick) log identical",
+      TB, "DESIGN.md §5 C11")
+
+claim("C12",
+      "explicit-state DFS over the public API alphabet of RenetServer and RenetClient (real objects, cloned per state)",
+      "all public-API call sequences up to depth D on a server with a remote and a local client id and on a stand-alone client; in every state disconnected connections are probed on a clone (emit nothing, yield nothing, accept nothing, cannot be revived, reason unchanged) and the event stream is checked for strict Connected/Disconnected alternation and first-reason reporting",
+      TB, "DESIGN.md §5 C12")
